@@ -20,7 +20,7 @@ ID = "C17"
 RULE = (
     "Hypothesis-generated NewRecordBatch values: 1-8 records; first offset anywhere in int64, other offsets = first + "
     "int32 delta in any order; whole-millisecond timestamps anywhere in [epoch, 9999-12-31] in any order, in several fixed UTC "
-    "offsets and named DST zones (shared tzinfo objects); key/value null/empty/small/one >=16 KiB; 0-3 headers with null/empty/non-empty key and value; record and "
+    "offsets and named DST zones (shared tzinfo objects); key/value null/empty/small/one >=16 KiB; 0-3 headers (1 record in 40: 63-130) with null/empty/non-empty key and value; record and "
     "batch attributes, producer id/epoch, base sequence, partition leader epoch over their full ranges incl. limits. "
     "Oracle: kv.refbatch.decode_batch (independent strict v2 decoder with own varints and pure-Python CRC-32C) must "
     "parse the output completely (magic 2, batch_length == len-12, CRC over exactly bytes[21:], minimal varints, record "
@@ -61,6 +61,8 @@ def batch_cases(draw):
     records = []
     for i in range(n):
         nh = draw(st.sampled_from([0, 0, 1, 2, 3]))
+        if draw(st.integers(0, 39)) == 0:
+            nh = draw(st.sampled_from([63, 64, 65, 130]))  # a header count whose zig-zag varint needs two bytes
         records.append({
             "attributes": draw(int_strategy(-128, 127)),
             "ts_ms": ts[i],
@@ -68,7 +70,8 @@ def batch_cases(draw):
             "offset": first + deltas[i],
             "key": draw(_blob() if i == 0 else _small_blob()),
             "value": draw(_blob() if i == 1 else _small_blob()),
-            "headers": [(draw(_small_blob()), draw(_small_blob())) for _ in range(nh)],
+            "headers": ([(draw(_small_blob()), draw(_small_blob())) for _ in range(nh)] if nh < 60 else
+                        [(bytes([65 + j % 26]) * (j % 3), None if j % 5 == 0 else bytes([j % 256])) for j in range(nh)]),
         })
     return {
         "producer_id": draw(int_strategy(-(2**63), 2**63 - 1)),
@@ -261,7 +264,7 @@ def _worker(task):
 
 def run(ctx: Ctx) -> Report:
     total = Report(prop=ID, level="exploration", rule=RULE)
-    n_total = 1600 if ctx.quick else 100000
+    n_total = 8000 if ctx.quick else 200000
     shards = 16
     tasks = [(ctx.subseed("shard", i), n_total // shards) for i in range(shards)]
     for rep in pool_map(_worker, tasks):
